@@ -59,6 +59,9 @@ func nameForms(para bool) []nameForm {
 		if !para {
 			out = append(out, nameForm{"plain", d, d, o, d})
 			out = append(out, nameForm{"user", "user." + d + ".n", d, o, "user." + d + ".n"})
+			// the name another parachain would use for the driver, on a chain that is not that parachain: the
+			// chain strips no title, so the transaction's own namespace is the full name
+			out = append(out, nameForm{"foreign-para", "user.p.other." + d, d, o, "user.p.other." + d})
 		} else {
 			out = append(out, nameForm{"para", paraTitl + d, d, o, d})
 			out = append(out, nameForm{"para-user", paraTitl + "user." + d + ".n", d, o, "user." + d + ".n"})
@@ -591,9 +594,10 @@ func find(para bool, k kase) (nameForm, []action, localClass, bool) {
 
 func main() {
 	r := vx.Start("C12", "exploration")
+	vfx.AllowForeignPara = true
 	clog.SetLogLevel("crit")
 	r.QuietStderr()
-	r.Rule = "executor name form {vfx, vfy, user.vfx.n, user.vfy.n on a main-chain node; user.p.para.vfx, user.p.para.vfy, user.p.para.user.vfx.n, user.p.para.user.vfy.n on a node titled user.p.para.} x every combination of <= 2 (quick) / <= 3 (thorough) state-key actions from the catalogue (own namespace; own key written but unreported; own key reported but unwritten; other executor's namespace written / only reported / friend-approved; plain coins account; own, other, friend-marked other deposit area in coins; key without mavl- prefix, without executor separator, with empty namespace, with a longer namespace, unknown namespace with friend mark; under user.* and parachain names also the driver's namespace and deposit area, with and without the driver's approval) x every local-key class (none, driver-name prefix, full-name prefix, other executor's prefix, prefix only, too short, missing separator after the name / after LODB, longer name, wrong common prefix, a state key); one program transaction + one reader per block through EventExecTxList, then EventAddBlock. distinct = (name form, action classes, local class, receipt type / reply kind)"
+	r.Rule = "executor name form {vfx, vfy, user.vfx.n, user.vfy.n, user.p.other.vfx, user.p.other.vfy (another parachain's name for the driver, which the driver accepts as paracross does) on a main-chain node; user.p.para.vfx, user.p.para.vfy, user.p.para.user.vfx.n, user.p.para.user.vfy.n on a node titled user.p.para.} x every combination of <= 2 (quick) / <= 3 (thorough) state-key actions from the catalogue (own namespace; own key written but unreported; own key reported but unwritten; other executor's namespace written / only reported / friend-approved; plain coins account; own, other, friend-marked other deposit area in coins; key without mavl- prefix, without executor separator, with empty namespace, with a longer namespace, unknown namespace with friend mark; under user.* and parachain names also the driver's namespace and deposit area, with and without the driver's approval) x every local-key class (none, driver-name prefix, full-name prefix, other executor's prefix, prefix only, too short, missing separator after the name / after LODB, longer name, wrong common prefix, a state key); one program transaction + one reader per block through EventExecTxList, then EventAddBlock. distinct = (name form, action classes, local class, receipt type / reply kind)"
 	r.Assume = []string{
 		"'own executor' under a parachain title is the name with the title stripped; under user.<driver>.<x> it is the full user name (the driver's own areas then need the driver's permission)",
 		"the owner of a deposit area kept for the transaction's driver is that driver; otherwise the owner of a key is the executor of its namespace; coins and unknown executors grant nothing to these transactions",
